@@ -175,7 +175,9 @@ SAMEKEY_FAMILIES = {
     'url_title': ['[a](/u "t1")\n', '[a](/u "t2")\n', '[a](/u)\n', '[a]: /u "t3"\n\n[a]\n'],
     'heading_text': ['# same text\n', '## same text\n', 'same text\n===\n', 'same text\n---\n', '###### same text ##\n'],
     'code_body': ['```py\nx = 1\n```\n', '```js\nx = 1\n```\n', '```\nx = 1\n```\n', '    x = 1\n', '`x = 1`\n'],
-    'cell_text': ['c | d\n:-|-:\nv | w\n', 'c | d\n-:|:-\nv | w\n', 'c | d\n:-:|---\nv | w\n', 'c | d\nv | w\n'],
+    'cell_text': ['c | d\n:-|-:\nv | w\n', 'c | d\n-:|:-\nv | w\n', 'c | d\n:-:|---\nv | w\n', 'c | d\nv | w\n',
+                  # same header, alignment and row count, body cells of other widths (a layout memo keyed by the header)
+                  'c | d\n:-|-:\nmuch wider cell | w\n', 'c | d\n:-|-:\nv | w and more\n', 'c | d\n:-|-:\n | \n'],
     'para_breaks': ['same line\nnext\n', 'same line  \nnext\n', 'same line\\\nnext\n', 'same line\n\nnext\n'],
     'list_marker': ['- item\n- two\n', '* item\n* two\n', '1. item\n2. two\n', '3) item\n4) two\n', '- item\n\n- two\n'],
     'html_or_text': ['<b>x</b>\n', '\\<b>x\\</b>\n', '`<b>x</b>`\n', '<b>x</b>\n\n<b>x</b> y\n'],
